@@ -146,20 +146,116 @@ Definition sim_handles : list (N * (N * rkind)) := [
 
 Definition sim_lookup (id : N) : option (N * rkind) := assoc id sim_handles.
 
-(* ExpectedReply(seq, frame): None = nil (the frame does not decode).  With a handler: ReplyID :=
-   ReplyProtocol, PlatformSerialNumber := seq, body := ReplyBody (its error is dropped: nil body);
-   without one the decoded header is encoded as it is (ReplyID 0, serial 0, no body) *)
+(* ExpectedReply(seq, frame): None = nil (the frame does not decode, or ReplyBody fails - the server
+   then logs and sends nothing).  With a handler: ReplyID := ReplyProtocol, PlatformSerialNumber :=
+   seq, body := ReplyBody; without one the decoded header is encoded as it is (ReplyID 0, serial 0,
+   no body) *)
 Definition expected_reply (t : sim) (seq : N) (f : list N) : sim * option (list N) :=
   match decode f with
   | Ok m =>
     match sim_lookup (m_id m) with
     | Some (rid, k) =>
       let r := reply_body k (t_h t) m in
-      let body := match snd r with Some b => b | None => [] end in
-      ({| t_hdr := t_hdr t; t_pv := t_pv t; t_ps := t_ps t; t_h := fst r |}, Some (encode m rid seq body))
+      ({| t_hdr := t_hdr t; t_pv := t_pv t; t_ps := t_ps t; t_h := fst r |},
+       match snd r with Some body => Some (encode m rid seq body) | None => None end)
     | None => (t, Some (encode m 0 0 []))
     end
   | _ => (t, None)
+  end.
+
+(* ------------------------------------------------------------------------------------------ *)
+(* CreateDefaultCommandData                                                                   *)
+(* ------------------------------------------------------------------------------------------ *)
+(* v.Encode() of the handler defaultProtocolHandles(version) registers for the command: the default
+   values of terminal/handle.go run through the Encode methods of protocol/model.  The table was
+   produced by the harness (op simdump) and is compared with the running code on every check (op
+   simgen ... D, for every version and command). *)
+Definition default_bodies : list ((N * N) * list N) := [
+  ((1, 0x0001), [0; 0; 0; 1; 0]);
+  ((1, 0x0002), []);
+  ((1, 0x0100), [0; 31; 0; 110; 99; 100; 49; 50; 51; 119; 119; 119; 46; 56; 48; 56; 46; 55; 54; 53; 52; 51; 50; 49; 1; 178; 226; 65; 49; 50; 51; 52; 53; 54; 55; 56]);
+  ((1, 0x0102), [57; 56; 55; 54; 53; 52; 51; 50; 49]);
+  ((1, 0x0200), [0; 0; 4; 0; 0; 0; 8; 0; 6; 238; 182; 173; 2; 99; 61; 247; 1; 56; 0; 3; 0; 99; 36; 16; 1; 35; 89; 89]);
+  ((1, 0x0704), [0; 2; 0; 0; 28; 0; 0; 4; 0; 0; 0; 8; 0; 6; 238; 182; 173; 2; 99; 61; 247; 1; 56; 0; 3; 0; 99; 36; 16; 1; 35; 89; 89; 0; 28; 0; 0; 4; 0; 0; 0; 8; 0; 6; 238; 182; 173; 2; 99; 61; 247; 1; 56; 0; 3; 0; 99; 36; 16; 1; 35; 89; 89]);
+  ((1, 0x1003), [1; 1; 2; 2; 0; 3; 2; 1; 1; 2]);
+  ((1, 0x1205), [0; 0; 0; 0; 0; 1; 1; 36; 17; 2; 0; 0; 0; 36; 17; 2; 0; 1; 2; 0; 0; 0; 0; 0; 0; 4; 0; 1; 1; 1; 0; 0; 0; 11]);
+  ((1, 0x1206), [0; 0; 0]);
+  ((1, 0x8001), [0; 1; 2; 0; 0]);
+  ((1, 0x8003), [0; 1; 0]);
+  ((1, 0x8100), [0; 1; 0; 49; 50; 51; 52; 53; 54; 55; 56; 57; 48; 97; 98; 99; 100; 101; 102; 103; 104; 105; 106; 107]);
+  ((1, 0x8104), []);
+  ((1, 0x8801), [1; 0; 2; 0; 3; 1; 4; 5; 255; 127; 127; 255]);
+  ((1, 0x9003), []);
+  ((1, 0x9101), [12; 52; 57; 46; 50; 51; 52; 46; 50; 51; 53; 46; 55; 4; 54; 0; 0; 1; 1; 1]);
+  ((1, 0x9102), [1; 1; 2; 1]);
+  ((1, 0x9201), [12; 52; 57; 46; 50; 51; 52; 46; 50; 51; 53; 46; 55; 4; 54; 0; 0; 1; 1; 0; 0; 0; 0; 36; 16; 7; 25; 35; 89; 36; 16; 7; 32; 35; 89]);
+  ((1, 0x9205), [1; 36; 16; 7; 25; 35; 89; 36; 16; 7; 32; 35; 89; 0; 0; 0; 0; 0; 0; 0; 0; 1; 1; 1]);
+  ((1, 0x9206), [9; 49; 50; 55; 46; 48; 46; 48; 46; 49; 39; 17; 8; 117; 115; 101; 114; 110; 97; 109; 101; 8; 112; 97; 115; 115; 119; 111; 114; 100; 11; 47; 97; 108; 97; 114; 109; 95; 102; 105; 108; 101; 1; 32; 7; 38; 0; 0; 0; 32; 7; 38; 35; 35; 89; 0; 0; 0; 0; 0; 0; 0; 0; 0; 1; 1; 1]);
+  ((1, 0x9207), [0; 0; 2]);
+  ((1, 0x1210), [49; 50; 51; 99; 100; 0; 0; 49; 50; 51; 99; 100; 0; 0; 36; 17; 17; 0; 0; 0; 1; 2; 0; 97; 97; 97; 0; 0; 0; 0; 0; 0; 0; 0; 0; 0; 0; 0; 0; 0; 0; 0; 0; 0; 0; 0; 0; 0; 0; 0; 0; 0; 0; 0; 0; 0; 2; 11; 49; 50; 51; 95; 97; 97; 97; 46; 106; 112; 103; 0; 0; 4; 210; 10; 99; 100; 95; 97; 97; 97; 46; 109; 112; 52; 0; 1; 226; 64]);
+  ((1, 0x1211), [11; 49; 50; 51; 95; 97; 97; 97; 46; 106; 112; 103; 0; 0; 0; 4; 210]);
+  ((1, 0x1212), [11; 49; 50; 51; 95; 97; 97; 97; 46; 106; 112; 103; 0; 0; 0; 4; 210]);
+  ((2, 0x0001), [0; 0; 0; 1; 0]);
+  ((2, 0x0002), []);
+  ((2, 0x0100), [0; 31; 0; 110; 99; 100; 49; 50; 51; 119; 119; 119; 46; 56; 48; 56; 46; 99; 111; 109; 0; 0; 0; 0; 0; 0; 0; 0; 0; 55; 54; 53; 52; 51; 50; 49; 1; 178; 226; 65; 49; 50; 51; 52; 53; 54; 55; 56]);
+  ((2, 0x0102), [57; 56; 55; 54; 53; 52; 51; 50; 49]);
+  ((2, 0x0200), [0; 0; 4; 0; 0; 0; 8; 0; 6; 238; 182; 173; 2; 99; 61; 247; 1; 56; 0; 3; 0; 99; 36; 16; 1; 35; 89; 89]);
+  ((2, 0x0704), [0; 2; 0; 0; 28; 0; 0; 4; 0; 0; 0; 8; 0; 6; 238; 182; 173; 2; 99; 61; 247; 1; 56; 0; 3; 0; 99; 36; 16; 1; 35; 89; 89; 0; 28; 0; 0; 4; 0; 0; 0; 8; 0; 6; 238; 182; 173; 2; 99; 61; 247; 1; 56; 0; 3; 0; 99; 36; 16; 1; 35; 89; 89]);
+  ((2, 0x1003), [1; 1; 2; 2; 0; 3; 2; 1; 1; 2]);
+  ((2, 0x1205), [0; 0; 0; 0; 0; 1; 1; 36; 17; 2; 0; 0; 0; 36; 17; 2; 0; 1; 2; 0; 0; 0; 0; 0; 0; 4; 0; 1; 1; 1; 0; 0; 0; 11]);
+  ((2, 0x1206), [0; 0; 0]);
+  ((2, 0x8001), [0; 1; 2; 0; 0]);
+  ((2, 0x8003), [0; 1; 0]);
+  ((2, 0x8100), [0; 1; 0; 49; 50; 51; 52; 53; 54; 55; 56; 57; 48; 97; 98; 99; 100; 101; 102; 103; 104; 105; 106; 107]);
+  ((2, 0x8104), []);
+  ((2, 0x8801), [1; 0; 2; 0; 3; 1; 4; 5; 255; 127; 127; 255]);
+  ((2, 0x9003), []);
+  ((2, 0x9101), [12; 52; 57; 46; 50; 51; 52; 46; 50; 51; 53; 46; 55; 4; 54; 0; 0; 1; 1; 1]);
+  ((2, 0x9102), [1; 1; 2; 1]);
+  ((2, 0x9201), [12; 52; 57; 46; 50; 51; 52; 46; 50; 51; 53; 46; 55; 4; 54; 0; 0; 1; 1; 0; 0; 0; 0; 36; 16; 7; 25; 35; 89; 36; 16; 7; 32; 35; 89]);
+  ((2, 0x9205), [1; 36; 16; 7; 25; 35; 89; 36; 16; 7; 32; 35; 89; 0; 0; 0; 0; 0; 0; 0; 0; 1; 1; 1]);
+  ((2, 0x9206), [9; 49; 50; 55; 46; 48; 46; 48; 46; 49; 39; 17; 8; 117; 115; 101; 114; 110; 97; 109; 101; 8; 112; 97; 115; 115; 119; 111; 114; 100; 11; 47; 97; 108; 97; 114; 109; 95; 102; 105; 108; 101; 1; 32; 7; 38; 0; 0; 0; 32; 7; 38; 35; 35; 89; 0; 0; 0; 0; 0; 0; 0; 0; 0; 1; 1; 1]);
+  ((2, 0x9207), [0; 0; 2]);
+  ((2, 0x1210), [49; 50; 51; 99; 100; 0; 0; 49; 50; 51; 99; 100; 0; 0; 36; 17; 17; 0; 0; 0; 1; 2; 0; 97; 97; 97; 0; 0; 0; 0; 0; 0; 0; 0; 0; 0; 0; 0; 0; 0; 0; 0; 0; 0; 0; 0; 0; 0; 0; 0; 0; 0; 0; 0; 0; 0; 2; 11; 49; 50; 51; 95; 97; 97; 97; 46; 106; 112; 103; 0; 0; 4; 210; 10; 99; 100; 95; 97; 97; 97; 46; 109; 112; 52; 0; 1; 226; 64]);
+  ((2, 0x1211), [11; 49; 50; 51; 95; 97; 97; 97; 46; 106; 112; 103; 0; 0; 0; 4; 210]);
+  ((2, 0x1212), [11; 49; 50; 51; 95; 97; 97; 97; 46; 106; 112; 103; 0; 0; 0; 4; 210]);
+  ((3, 0x0001), [0; 0; 0; 1; 0]);
+  ((3, 0x0002), []);
+  ((3, 0x0100), [0; 31; 0; 110; 99; 100; 49; 50; 51; 52; 53; 54; 55; 56; 57; 119; 119; 119; 46; 56; 48; 56; 46; 99; 111; 109; 0; 0; 0; 0; 0; 0; 0; 0; 0; 0; 0; 0; 0; 0; 0; 0; 0; 0; 0; 55; 54; 53; 52; 51; 50; 49; 0; 0; 0; 0; 0; 0; 0; 0; 0; 0; 0; 0; 0; 0; 0; 0; 0; 0; 0; 0; 0; 0; 0; 1; 178; 226; 65; 49; 50; 51; 52; 53; 54; 55; 56]);
+  ((3, 0x0102), [9; 57; 56; 55; 54; 53; 52; 51; 50; 49; 49; 50; 51; 52; 53; 54; 55; 56; 57; 48; 49; 50; 51; 52; 53; 51; 46; 55; 46; 49; 53; 0; 0; 0; 0; 0; 0; 0; 0; 0; 0; 0; 0; 0; 0]);
+  ((3, 0x0200), [0; 0; 4; 0; 0; 0; 8; 0; 6; 238; 182; 173; 2; 99; 61; 247; 1; 56; 0; 3; 0; 99; 36; 16; 1; 35; 89; 89]);
+  ((3, 0x0704), [0; 2; 0; 0; 28; 0; 0; 4; 0; 0; 0; 8; 0; 6; 238; 182; 173; 2; 99; 61; 247; 1; 56; 0; 3; 0; 99; 36; 16; 1; 35; 89; 89; 0; 28; 0; 0; 4; 0; 0; 0; 8; 0; 6; 238; 182; 173; 2; 99; 61; 247; 1; 56; 0; 3; 0; 99; 36; 16; 1; 35; 89; 89]);
+  ((3, 0x1003), [1; 1; 2; 2; 0; 3; 2; 1; 1; 2]);
+  ((3, 0x1205), [0; 0; 0; 0; 0; 1; 1; 36; 17; 2; 0; 0; 0; 36; 17; 2; 0; 1; 2; 0; 0; 0; 0; 0; 0; 4; 0; 1; 1; 1; 0; 0; 0; 11]);
+  ((3, 0x1206), [0; 0; 0]);
+  ((3, 0x8001), [0; 1; 2; 0; 0]);
+  ((3, 0x8003), [0; 1; 0]);
+  ((3, 0x8100), [0; 1; 0; 49; 50; 51; 52; 53; 54; 55; 56; 57; 48; 97; 98; 99; 100; 101; 102; 103; 104; 105; 106; 107]);
+  ((3, 0x8104), []);
+  ((3, 0x8801), [1; 0; 2; 0; 3; 1; 4; 5; 255; 127; 127; 255]);
+  ((3, 0x9003), []);
+  ((3, 0x9101), [12; 52; 57; 46; 50; 51; 52; 46; 50; 51; 53; 46; 55; 4; 54; 0; 0; 1; 1; 1]);
+  ((3, 0x9102), [1; 1; 2; 1]);
+  ((3, 0x9201), [12; 52; 57; 46; 50; 51; 52; 46; 50; 51; 53; 46; 55; 4; 54; 0; 0; 1; 1; 0; 0; 0; 0; 36; 16; 7; 25; 35; 89; 36; 16; 7; 32; 35; 89]);
+  ((3, 0x9205), [1; 36; 16; 7; 25; 35; 89; 36; 16; 7; 32; 35; 89; 0; 0; 0; 0; 0; 0; 0; 0; 1; 1; 1]);
+  ((3, 0x9206), [9; 49; 50; 55; 46; 48; 46; 48; 46; 49; 39; 17; 8; 117; 115; 101; 114; 110; 97; 109; 101; 8; 112; 97; 115; 115; 119; 111; 114; 100; 11; 47; 97; 108; 97; 114; 109; 95; 102; 105; 108; 101; 1; 32; 7; 38; 0; 0; 0; 32; 7; 38; 35; 35; 89; 0; 0; 0; 0; 0; 0; 0; 0; 0; 1; 1; 1]);
+  ((3, 0x9207), [0; 0; 2]);
+  ((3, 0x1210), [49; 50; 51; 99; 100; 0; 0; 49; 50; 51; 99; 100; 0; 0; 36; 17; 17; 0; 0; 0; 1; 2; 0; 97; 97; 97; 0; 0; 0; 0; 0; 0; 0; 0; 0; 0; 0; 0; 0; 0; 0; 0; 0; 0; 0; 0; 0; 0; 0; 0; 0; 0; 0; 0; 0; 0; 2; 11; 49; 50; 51; 95; 97; 97; 97; 46; 106; 112; 103; 0; 0; 4; 210; 10; 99; 100; 95; 97; 97; 97; 46; 109; 112; 52; 0; 1; 226; 64]);
+  ((3, 0x1211), [11; 49; 50; 51; 95; 97; 97; 97; 46; 106; 112; 103; 0; 0; 0; 4; 210]);
+  ((3, 0x1212), [11; 49; 50; 51; 95; 97; 97; 97; 46; 106; 112; 103; 0; 0; 0; 4; 210]) ].
+
+Fixpoint assoc2 (ver cmd : N) (l : list ((N * N) * list N)) : option (list N) :=
+  match l with
+  | [] => None
+  | ((v, c), b) :: t => if (v =? ver) && (c =? cmd) then Some b else assoc2 ver cmd t
+  end.
+Definition default_body (ver cmd : N) : option (list N) := assoc2 ver cmd default_bodies.
+
+(* CreateDefaultCommandData: nil (None) for a command without handler; the serial is not consumed then *)
+Definition create_default (t : sim) (cmd : N) : sim * option (list N) :=
+  match default_body (t_pv t) cmd with
+  | Some body => let r := create_command t cmd body in (fst r, Some (snd r))
+  | None => (t, None)
   end.
 
 (* ------------------------------------------------------------------------------------------ *)
